@@ -1212,6 +1212,7 @@ def m_bank( ctx ):
 # ---------------------------------------------------------------------------------------- T-TNET (C20)
 
 TNETS = 'server/tnetstrings.py'
+TNET = 'server/tnet.py'
 
 
 def _bytes_consts( node ):
@@ -1557,6 +1558,56 @@ def t_tnet( ctx ):
                      'messages the serialiser emits and tnetstrings.parse accepts ( e.g. a negative integer ) make the streaming parser raise: the two parsers disagree on a supported type, and the rest of the stream is lost' )
         else:
             res.ok( t2, sb[tag][0], 'tag %r: the streaming conversion refuses no payload the batch conversion accepts ( same assertions )' % tag )
+    # the caller's encoding reaches every nested value: inside a function of tnetstrings.py that takes `encoding`, every call of one of the
+    # module's functions that takes `encoding` too hands on the caller's ( encoding=encoding ), and none of them is passed on as a bare
+    # function ( map( dump, data ): the elements of a list are then serialised with the default encoding whatever the caller asked for -
+    # text inside a list comes back different under latin-1 / cp1252 / utf-16 )
+    takers = { f_.name: f_ for f_ in src.tree.body if isinstance( f_, ast.FunctionDef ) and 'encoding' in [ a_.arg for a_ in f_.args.args + f_.args.kwonlyargs ] }
+    n_enc = 0
+    for f_ in takers.values():
+        for n_ in ast.walk( f_ ):
+            if isinstance( n_, ast.Call ) and isinstance( n_.func, ast.Name ) and n_.func.id in takers:
+                n_enc += 1
+                params = [ a_.arg for a_ in takers[n_.func.id].args.args ]
+                pos = params.index( 'encoding' ) if 'encoding' in params else None
+                passed = [ k_.value for k_ in n_.keywords if k_.arg == 'encoding' ] + ( [ n_.args[pos] ] if pos is not None and len( n_.args ) > pos else [] )
+                # accepted: the two places that deal with a dictionary KEY, a byte string whatever the encoding - dump( <text>.encode( ... ))
+                # and the parse whose result is asserted to be bytes ( assert type( <key> ) is bytes )
+                if n_.args and isinstance( n_.args[0], ast.Call ) and isinstance( n_.args[0].func, ast.Attribute ) and n_.args[0].func.attr == 'encode':
+                    continue
+                st_ = stmt_of( src, n_ )
+                if isinstance( st_, ast.Assign ) and isinstance( st_.targets[0], ast.Tuple ) and isinstance( st_.targets[0].elts[0], ast.Name ) \
+                   and any( isinstance( a_, ast.Assert ) and pmatch( a_.test, 'type( %s ) is bytes' % st_.targets[0].elts[0].id ) is not None for a_ in ast.walk( f_ )):
+                    continue
+                if not ( passed and isinstance( passed[0], ast.Name ) and passed[0].id == 'encoding' ):
+                    res.bad( src, n_, '%s: %s does not hand on the caller\'s encoding' % ( f_.name, norm_text( ast.unparse( n_ ))[:60] ),
+                             'the nested value is serialised / parsed with the default encoding: text inside a container does not survive a round trip under any other encoding', func=f_.name )
+            elif isinstance( n_, ast.Name ) and isinstance( n_.ctx, ast.Load ) and n_.id in takers and not ( isinstance( src.parent.get( n_ ), ast.Call ) and src.parent.get( n_ ).func is n_ ):
+                n_enc += 1
+                res.bad( src, n_, '%s: %s is passed on as a bare function ( %s )' % ( f_.name, n_.id, norm_text( ast.unparse( src.parent.get( n_ )))[:60] ),
+                         'called without the caller\'s encoding: the elements are serialised with the default encoding whatever was asked for', func=f_.name )
+    if n_enc and not any( 'encoding' in f.construct for f in res.findings ):
+        res.ok( src, dump, 'the %d nested dump / parse calls of tnetstrings.py hand on encoding=encoding' % n_enc )
+    # tnet_machine: the payload of a zero-length message is the BYTES b'' ( no data was collected ): the expression that fetches the collected
+    # payload is evaluated for "nothing collected"
+    tsrc = ctx.src( TNET )
+    proc = tsrc.get( 'tnet_machine.tnet_parser.process', required=False )
+    if proc is not None:
+        srcs = [ a_ for a_ in proc.body if isinstance( a_, ast.Assign ) and isinstance( a_.targets[0], ast.Name ) and isinstance( a_.value, ast.IfExp ) ]
+        raws = [ a_ for a_ in proc.body if isinstance( a_, ast.Assign ) and isinstance( a_.targets[0], ast.Name ) and isinstance( a_.value, ast.BinOp ) and "'...data.input'" in ast.unparse( a_.value ) ]
+        if len( srcs ) == 1 and len( raws ) == 1:
+            try:
+                v = fold( srcs[0].value, { raws[0].targets[0].id: 'k', 'data': {}, 'sys.version_info': ( 3, 12 ) } )
+            except NoFold as exc:
+                raise AnalysisError( 'tnet_parser.process: payload expression not foldable: %s' % exc )
+            if isinstance( v, bytes ) and v == b'':
+                res.ok( tsrc, srcs[0], "process: the payload of a zero-length message is b''" )
+            else:
+                res.bad( tsrc, srcs[0], 'tnet_parser.process: the payload of a zero-length message is %r' % ( v, ),
+                         "a zero-length byte string ( b'0:,' ) is delivered as text where the batch parser returns b'', and a zero-length text ( b'0:$' ) fails to decode: AttributeError out of the machine" )
+        else:
+            raise AnalysisError( 'tnet_parser.process: payload fetch ( <name> = ... if <raw> in data ... ) not found' )
+
     return res
 
 
